@@ -668,12 +668,15 @@ class SymEval:
             return
         it = self.eval(st.iter, frame)
         if it[0] in ("tuple", "list") and len(it[1]) <= 16 and not any(x[0] == "star" for x in it[1]) and not st.orelse \
-                and not any(isinstance(n, (ast.Break, ast.Continue)) for n in ast.walk(st)):
-            # a loop over a short literal sequence is its unrolling (a table walked in order)
-            for x in it[1]:
-                self.assign(st.target, x, frame, st)
-                self.exec_block(st.body, frame)
-            return
+                and not any(isinstance(n, ast.Break) for n in ast.walk(st)):
+            # a loop over a short literal sequence is its unrolling (a table walked in order); guard clauses ending in `continue` are read as
+            # the if/else they abbreviate
+            body_ = _without_continue(st.body)
+            if body_ is not None:
+                for x in it[1]:
+                    self.assign(st.target, x, frame, st)
+                    self.exec_block(body_, frame)
+                return
         if it[0] == "call" and T.call_name(it) == "itertools.count" and len(it[2]) <= 1 and not it[3] and isinstance(st.target, ast.Name) and not st.orelse \
                 and isinstance(st.iter, ast.Call) and not any(isinstance(n, ast.Continue) for n in ast.walk(st)):
             # for i in itertools.count(a): body (left by break)   is   i = a; while True: body; i += 1
@@ -712,6 +715,11 @@ class SymEval:
         self._loop("for", st, frame, it, st.target, proj=proj)
 
     def st_While(self, st, frame):
+        cd = _countdown_while_as_for(st)
+        if cd is not None:
+            for s_ in cd:
+                self.exec_stmt(s_, frame)
+            return
         f = _counter_while_as_for(st, frame)
         if f is not None:
             # i = a; while i < n: body; i += 1   is   for i in range(a, n): body
@@ -1057,7 +1065,15 @@ class SymEval:
         if isinstance(op, ast.IsNot):
             return T.mk_not(T.eq(a, b, numeric=False))
         if isinstance(op, (ast.In, ast.NotIn)):
-            if b[0] in ("list", "tuple") and not any(x[0] == "star" for x in b[1]):
+            if b[0] == "ite" and any(x[0] in ("list", "tuple") and not any(y[0] == "star" for y in x[1]) for x in (b[2], b[3])):
+                # x in (A if c else [..]): the membership test on each side (one side is a literal, whose test is a plain disjunction)
+                r = T.mk_ite(b[1], self.cmp(ast.In(), a, b[2], node), self.cmp(ast.In(), a, b[3], node))
+            elif b[0] == "call" and b[1] == "+" and len(b[2]) >= 2 and not b[3]:
+                # x in (A + B) for lists: x in A or x in B
+                r = T.mk_or([self.cmp(ast.In(), a, p_, node) for p_ in b[2]])
+            elif _concat_parts(b) is not None:
+                r = T.mk_or([self.cmp(ast.In(), a, p_, node) for p_ in _concat_parts(b)])
+            elif b[0] in ("list", "tuple") and not any(x[0] == "star" for x in b[1]):
                 r = T.mk_or([T.eq(a, x, numeric=False) for x in b[1]])
             elif b[0] == "dict" and b[1] and all(k[0] == "const" for k, _ in b[1]):
                 r = T.mk_or([T.eq(a, k, numeric=False) for k, _ in b[1]])
@@ -1653,6 +1669,12 @@ class SymEval:
             q = name[4:]
             if q in self.model.functions:
                 return self.model.functions[q]
+        if recv is not None and method is not None and not method.startswith("__"):
+            # a method the reference tree does not have, defined by exactly one class: a helper extracted onto the receiver's class (the
+            # receiver's type need not be known to find it)
+            cands = [f for f in self.model.functions.values() if f.name == method and f.cls and f.parent is None and self.is_new_helper(f)]
+            if len(cands) == 1 and not any(f.name == method and f.cls and f is not cands[0] for f in self.model.functions.values()):
+                return cands[0]
         return None
 
     def resolve_class(self, name, fterm, frame) -> Optional[ClassInfo]:
@@ -1797,6 +1819,27 @@ class SymEval:
         plain = [a for a in args if a[0] != "star"]
         if name == "dict" and not args and not kwargs:
             return ("dict", ())
+        if name in ("max", "min") and len(args) == 1 and set(kw) == {"default"} and args[0][0] != "star":
+            # max(xs, default=d) is max(xs) if len(xs) > 0 else d (a generator argument is consumed like the list of its items)
+            xs_ = args[0]
+            if xs_[0] == "comp" and xs_[1] == "gen":
+                xs_ = ("comp", "list") + tuple(xs_[2:])
+            expr = ast.parse(f"{name}(__mx_a) if len(__mx_a) > 0 else __mx_d", mode="eval").body
+            for n_ in ast.walk(expr):
+                ast.copy_location(n_, node)
+            sub_ = Frame(frame.func, frame.module, frame.cls, {"__mx_a": xs_, "__mx_d": kw["default"]}, parent=frame)
+            return self.eval(expr, sub_)
+        if name in ("max", "min") and not kwargs and len(args) == 1 and args[0][0] == "ite":
+            # max(t) with t one of two literal tuples picked by a condition: the maximum on each side
+            def _lit(t):
+                return t[0] in ("list", "tuple") and len(t[1]) >= 1 and not any(x[0] == "star" for x in t[1]) if t[0] != "ite" else (_lit(t[2]) and _lit(t[3]))
+
+            def _each(t):
+                if t[0] == "ite":
+                    return T.mk_ite(t[1], _each(t[2]), _each(t[3]))
+                return T.mk_max(list(t[1])) if name == "max" else T.mk_min(list(t[1]))
+            if _lit(args[0]) and all(_arith_ok(x) for t in _ite_tuple_leaves(args[0]) for x in t[1]):
+                return _each(args[0])
         if name in ("max", "min") and not kwargs:
             items = None
             if len(args) >= 2 and len(plain) == len(args):
@@ -2081,6 +2124,76 @@ def _search_loop(loop: ast.For, after: ast.stmt):
     ast.copy_location(ret, loop)
     ast.fix_missing_locations(ret)
     return ret
+
+
+def _without_continue(body):
+    """The loop body with every top-level guard `if c: ...; continue` turned into `if c: ... else: <rest of the body>`; None if a
+    `continue` sits anywhere else (nested deeper, in a loop, in a try)."""
+    if not any(isinstance(n, ast.Continue) for s_ in body for n in ast.walk(s_)):
+        return body
+    out = []
+    for k, s_ in enumerate(body):
+        if isinstance(s_, ast.If) and not s_.orelse and s_.body and isinstance(s_.body[-1], ast.Continue) \
+                and not any(isinstance(n, ast.Continue) for b_ in s_.body[:-1] for n in ast.walk(b_)) and not any(isinstance(n, ast.Continue) for n in ast.walk(s_.test)):
+            rest = _without_continue(body[k + 1:])
+            if rest is None:
+                return None
+            new = ast.If(test=s_.test, body=list(s_.body[:-1]) or [ast.copy_location(ast.Pass(), s_)], orelse=list(rest))
+            ast.copy_location(new, s_)
+            out.append(new)
+            return out
+        if any(isinstance(n, ast.Continue) for n in ast.walk(s_)):
+            return None
+        out.append(s_)
+    return out
+
+
+def _concat_parts(t: Term):
+    """The operands if t is a `+` of lists that the arithmetic normal form turned into a sum of atoms (at least one of them a
+    comprehension / list, every coefficient and exponent 1, no constant), else None."""
+    if t[0] != "num" or t[2] != T.POLY_ONE or len(t[1]) < 2:
+        return None
+    parts = []
+    for mono, coef in t[1]:
+        if coef != 1 or len(mono) != 1 or mono[0][1] != 1:
+            return None
+        parts.append(mono[0][0])
+    if not any(p[0] in ("comp", "list", "accum") or (p[0] == "call" and p[1] == "+") for p in parts):
+        return None
+    return parts
+
+
+def _ite_tuple_leaves(t: Term):
+    return _ite_tuple_leaves(t[2]) + _ite_tuple_leaves(t[3]) if t[0] == "ite" else [t]
+
+
+def _countdown_while_as_for(st: ast.While):
+    """`while n > 0: n -= 1; body` (or with the decrement last; n not used otherwise in the body, no break / continue / else) runs the body
+    n times: `for _ in range(n): body`, followed by `n = min(n, 0)`.  Returns the two statements or None."""
+    t = st.test
+    if st.orelse or len(st.body) < 2 or not (isinstance(t, ast.Compare) and len(t.ops) == 1 and isinstance(t.ops[0], ast.Gt) and isinstance(t.left, ast.Name)
+                                            and isinstance(t.comparators[0], ast.Constant) and t.comparators[0].value == 0 and not isinstance(t.comparators[0].value, bool)):
+        return None
+    n = t.left.id
+
+    def dec(s_):
+        return isinstance(s_, ast.AugAssign) and isinstance(s_.target, ast.Name) and s_.target.id == n and isinstance(s_.op, ast.Sub) and isinstance(s_.value, ast.Constant) and s_.value.value == 1
+    if dec(st.body[0]):
+        body = st.body[1:]
+    elif dec(st.body[-1]):
+        body = st.body[:-1]
+    else:
+        return None
+    for x in [x for s_ in body for x in ast.walk(s_)]:
+        if isinstance(x, (ast.Break, ast.Continue, ast.Return)) or (isinstance(x, ast.Name) and x.id == n):
+            return None
+    f = ast.For(target=ast.Name(id=f"__{n}_left", ctx=ast.Store()), iter=ast.Call(func=ast.Name(id="range", ctx=ast.Load()), args=[ast.Name(id=n, ctx=ast.Load())], keywords=[]),
+                body=body, orelse=[])
+    after = ast.Assign(targets=[ast.Name(id=n, ctx=ast.Store())], value=ast.Call(func=ast.Name(id="min", ctx=ast.Load()), args=[ast.Name(id=n, ctx=ast.Load()), ast.Constant(value=0)], keywords=[]))
+    for x in (f, after):
+        ast.copy_location(x, st)
+        ast.fix_missing_locations(x)
+    return [f, after]
 
 
 def _counter_while_as_for(st: ast.While, frame):
